@@ -41,6 +41,19 @@ def fold_sites(fn):
                 continue
             folds = any(isinstance(a, ast.Name) and a.id == t for a in st.value.args)
             out.append((loop, st, folds))
+    # the same promotion written AFTER the loop, reading the loop's variable: it sees the last item only
+    inside = {id(st) for loop in ast.walk(fn) if isinstance(loop, (ast.For, ast.While)) for st in ast.walk(loop)}
+    for st in ast.walk(fn):
+        if id(st) in inside or not (isinstance(st, ast.Assign) and len(st.targets) == 1 and isinstance(st.targets[0], ast.Name) and isinstance(st.value, ast.Call) and _callee(st.value) in PROMOTERS):
+            continue
+        used = {n.id for a in st.value.args for n in ast.walk(a) if isinstance(n, ast.Name)}
+        for loop in ast.walk(fn):
+            if isinstance(loop, ast.For) and loop.end_lineno < st.lineno:
+                tv = {n.id for n in ast.walk(loop.target) if isinstance(n, ast.Name)}
+                rebound = any(isinstance(n, ast.Name) and n.id in tv and isinstance(n.ctx, ast.Store) and loop.end_lineno < n.lineno < st.lineno for n in ast.walk(fn))
+                if used & tv and not rebound:
+                    out.append((loop, st, None))
+                    break
     # de-duplicate (a nested loop is walked from both loops)
     seen = set()
     uniq = []
@@ -60,6 +73,11 @@ def dtype_folds(ctx, rule_id="DTYPE-FOLD", floor=4):
             if not isinstance(fn, ast.FunctionDef):
                 continue
             for loop, st, folds in fold_sites(fn):
+                if folds is None:
+                    r.fail("%s::%s line %d" % (rel.rsplit("/", 1)[-1], fn.name, st.lineno), rel, fn.name, st.lineno, "dtype fold in %s: %s" % (fn.name, unparse(st.targets[0])),
+                           "`%s` stands AFTER the loop over `%s` and reads that loop's variable: the promotion sees the last item only (a complex item before a real last one is stored into a real result and loses its imaginary part)" % (
+                               unparse(st)[:90], unparse(loop.iter)[:40]))
+                    continue
                 r.check(folds, "%s::%s line %d" % (rel.rsplit("/", 1)[-1], fn.name, st.lineno), rel, fn.name, st.lineno, "dtype fold in %s: %s" % (fn.name, unparse(st.targets[0])),
                         "`%s` inside the loop over `%s` does not take the accumulated `%s` as an operand: the dtype used after the loop is that of the last item only (a complex block stored into a real result loses its imaginary part)" % (
                             unparse(st)[:90], unparse(loop.iter)[:40] if isinstance(loop, ast.For) else "while", unparse(st.targets[0])))
